@@ -126,3 +126,6 @@ SUBS = [
         rule='all concatenations of up to 5 (quick) / 6 (thorough) tokens from {ESC[, 1, 0, 38;5;, ;, m, a, 22, 4}',
         exhaustive_note='every token string over the 9-token alphabet up to the length bound'),
 ]
+
+# thorough tier: atheris / libFuzzer campaigns (fuzz/target.py) with this sub-check's evaluate() as the oracle
+FUZZ = [dict(sub='free', runs=150000, shards=4, seeds=[b'\x00\x04\x01\x10', b'\x00\x0b\x02\x07\x02\x05\x01\x11'])]
